@@ -119,6 +119,26 @@ unit(name="SrcSaisBuckets", props="property C03", file=SA_FILE, dialect="gensa",
                      params=[("text", "&[T]")], ret=None,
                      theorem="RbV.Thm.GenSrcSaisBuckets.init_bucket_end_spec")])
 
+# `Sais::calc_pos` (induced sorting).  `self.init_bucket_start(text)` / `self.init_bucket_end(text)` are abstract monadic
+# parameters with the signatures of the translated functions of Gen/SrcSaisBuckets.lean (the theorems instantiate them),
+# `pos_types.is_l_pos` / `is_s_pos` abstract monadic predicates (instantiated with Gen/SrcPosTypes.lean)
+SA_ABS_BUCKETS = {
+    "init_bucket_start": dict(lean="initBucketStart", reads=["self.bucket_sizes", "self.bucket_start"], args=["&[T]"],
+                              writes=["self.bucket_sizes", "self.bucket_start"]),
+    "init_bucket_end": dict(lean="initBucketEnd", reads=["self.bucket_start", "self.bucket_end"], args=["&[T]"],
+                            writes=["self.bucket_end"])}
+SA_ABS_TYPES = {"pos_types.is_l_pos": dict(lean="isL", args=["usize"], ret="bool", monadic=True),
+                "pos_types.is_s_pos": dict(lean="isS", args=["usize"], ret="bool", monadic=True),
+                "pos_types.is_lms_pos": dict(lean="isLms", args=["usize"], ret="bool", monadic=True)}
+
+unit(name="SrcSaisCalcPos", props="property C03", file=SA_FILE, dialect="gensa", structs=SA_POSTYPES,
+     functions=[dict(name="Sais::calc_pos", lean="calc_pos",
+                     header="fn calc_pos<T: Integer + Unsigned + NumCast + Copy>( &mut self, text: &[T], pos_types: &PosTypes, )",
+                     aliases={"T": "u64"}, abstract_fns=dict(SA_CASTU, **SA_ABS_TYPES), abs_self_calls=SA_ABS_BUCKETS,
+                     self_fields=[(k, SA_FIELDS[k]) for k in ("pos", "lms_pos", "bucket_sizes", "bucket_start", "bucket_end")],
+                     params=[("text", "&[T]"), ("pos_types", "&PosTypes")], ret=None,
+                     theorem="RbV.Thm.GenSrcSaisCalcPos.calc_pos_eq_model")])
+
 _SA = {}
 
 
@@ -178,6 +198,36 @@ def _sa_classes():
                     self.err("`Vec::with_capacity(%r)`" % (nt,), e)
                 return "([] : %s)" % expected.lean(), expected
             return BaseF.call(self, e, code, expected)
+
+        # ------------------------------------------------------------ abstract `self.method(..)` (spec `abs_self_calls`)
+        def __init__(self, unit, fspec, src, body_text, body_pos):
+            BaseF.__init__(self, unit, fspec, src, body_text, body_pos)
+            self.abs_self = dict(fspec.get("abs_self_calls", {}))
+            fields = dict(fspec.get("self_fields", []))
+            for nm, f in self.abs_self.items():
+                rd = [fields[r[len("self."):]] for r in f["reads"]]
+                wr = [fields[w[len("self."):]] for w in f["writes"]]
+                ret = wr[0] if len(wr) == 1 else "(" + ", ".join(wr) + ")"
+                self.absfns["%selfabs:" + nm] = dict(lean=f["lean"], args=rd + list(f["args"]), ret=ret, monadic=True)
+
+        def self_call(self, e, code, expected):
+            f = self.abs_self.get(e.name)
+            if f is None:
+                return BaseF.self_call(self, e, code, expected)
+            if len(f["args"]) != len(e.args):
+                self.err("`self.%s` called with %d arguments, the spec says %d" % (e.name, len(e.args), len(f["args"])), e)
+            parts = [self.lookup(a, e).lean for a in f["reads"]]
+            for a, at in zip(e.args, f["args"]):
+                want = self.ty_of_text(at)
+                sv, t = self.expr(a, code, want)
+                if t != want:
+                    self.err("argument of `self.%s` has type %r, the spec says %r" % (e.name, t, want), a)
+                parts.append(atom_(sv))
+            outs = [self.lookup(w, e).lean for w in f["writes"]]
+            if f["lean"] not in self.used_abs:
+                self.used_abs.append(f["lean"])
+            code.bind(cb.tuple_pat(outs), ("call", f["lean"] + "".join(" " + atom_(p_) for p_ in parts)))
+            return "()", cb.TUnit()
 
         # ------------------------------------------------------------ `VecMap<usize>` (bucket sizes)
         def is_vecmap(self, e):
@@ -292,6 +342,15 @@ def _sa_classes():
             def f(n):
                 if n.kind in ("if", "match", "block", "closure"):
                     return False
+                if n.kind == "mcall" and cf.strip(n.recv).kind == "var" and cf.strip(n.recv).name == "self" \
+                        and n.name in getattr(self, "abs_self", {}):
+                    for w in self.abs_self[n.name]["writes"]:
+                        if w not in decl and w not in out:
+                            out.append(w)
+                if n.kind == "mcall" and n.name == "resize" and len(n.args) == 2:
+                    r = self._lhs_root(n.recv)
+                    if r not in decl and r not in out:
+                        out.append(r)
                 if n.kind == "mcall" and n.name in ("set", "set_bit") and len(n.args) == 2 and cf.strip(n.recv).kind in ("var", "field"):
                     r = self._lhs_root(n.recv)
                     if r not in decl and r not in out:
@@ -309,6 +368,15 @@ def _sa_classes():
                     if it != cb.TInt("usize") or xt != v.ty.elem:
                         self.err("`.set(%r, %r)` on %r" % (it, xt, v.ty), e)
                     code.bind(v.lean, ("call", "Rs.setIdx %s %s %s" % (atom_(v.lean), atom_(i), atom_(x))))
+                    return
+            if e.kind == "mcall" and e.name == "resize" and len(e.args) == 2:
+                v = self.container(e.recv, e)
+                if v is not None and isinstance(v.ty, cb.TSeq):
+                    n, nt = self.expr(e.args[0], code, cb.TInt("usize"))
+                    x, xt = self.expr(e.args[1], code, v.ty.elem)
+                    if nt != cb.TInt("usize") or xt != v.ty.elem:
+                        self.err("`.resize(%r, %r)` on %r" % (nt, xt, v.ty), e)
+                    code.let(v.lean, "Rs.resizeV %s %s %s" % (atom_(v.lean), atom_(n), atom_(x)))
                     return
             if e.kind == "mcall" and e.name == "set_bit" and len(e.args) == 2:
                 v = self.container(e.recv, e)
